@@ -155,7 +155,11 @@ def skygrid_target(draw):
     g = draw(gc.genealogies(3, 8))
     m = draw(st.integers(2, 6))
     grid = draw(gc.grids([g["coal"]], m, samp=g["samp"]))
-    return {"g": g, "m": m, "grid": grid, "gamma": [draw(fl(-1.0, 3.0)) for _ in range(m)], "tau": draw(logu(0.1, 10.0)),
+    # log population sizes start within a factor e^2 of the time scale of the genealogy (far away the Newton
+    # iteration of the block update diverges and its proposal is numerically chaotic; such transitions are
+    # recognised by the probe in hastings_oracle and only checked for (a), (b), (d))
+    off = math.log(max(g["coal"]))
+    return {"g": g, "m": m, "grid": grid, "gamma": [off + draw(fl(-2.0, 2.0)) for _ in range(m)], "tau": draw(logu(0.1, 10.0)),
             "tau_prior": [draw(logu(0.5, 3.0)), draw(logu(0.1, 2.0))]}
 
 
@@ -755,8 +759,16 @@ def hastings_oracle(c, o, op, r):
             if not (1.0 / A) * (1 - 1e-12) <= f <= A * (1 + 1e-12):
                 return None, "proposal_form", {"factor": f, "scaler": A}
         H, mu_f, QW_f = block_reference(c, g0, t0, g1, t1)
+        # round-off probe: the same reference with the fields perturbed by 1e-10; a Newton iteration that
+        # diverges (or whose iteration count flips) amplifies it without bound
+        sg = np.where(np.arange(len(g0)) % 2 == 0, 1.0, -1.0)
+        eta = 1e-10
+        H2, _, _ = block_reference(c, g0 + eta * sg * np.maximum(1.0, np.abs(g0)), t0, g1 - eta * sg * np.maximum(1.0, np.abs(g1)), t1)
+        amp = abs(H2 - H) / (eta * max(1.0, abs(H))) if math.isfinite(H) and math.isfinite(H2) else math.inf
+        info.update(tau=t0, tau_new=t1, amplification=amp)
+        if not amp < 1e3:
+            return None, None, dict(info, unguarded=True)
         zs = _draws(r, "randn", "_step")
-        info.update(tau=t0, tau_new=t1)
         if len(zs) == 1 and np.all(np.isfinite(QW_f)) and np.all(np.isfinite(mu_f)):
             z = _np(zs[0])
             try:
@@ -975,14 +987,16 @@ def _body(c, tmp):
         gave_up = math.isinf(H_impl)
         # ---- (c) Hastings ratio
         H_ref = None
+        unguarded = False
         if gave_up:
             labels["operator_gave_up"] = labels.get("operator_gave_up", 0) + 1
         else:
             H_ref, problem, info = hastings_oracle(c, o, op, r)
             if problem:
                 fail(problem, dict(where, **info), cls)
-            if info.get("unguarded"):
-                labels["hmc_unguarded"] = labels.get("hmc_unguarded", 0) + 1
+            unguarded = bool(info.get("unguarded"))
+            if unguarded:
+                labels["unguarded:" + o["type"]] = labels.get("unguarded:" + o["type"], 0) + 1
             if H_ref is not None and not problem:
                 nchecked["c"] += 1
                 scale = max(1.0, abs(H_ref), info.get("scale", 1.0) ** 2 if cls == "HMCOperator" else 1.0)
@@ -1016,8 +1030,8 @@ def _body(c, tmp):
                     labels["nonfinite_proposal"] = labels.get("nonfinite_proposal", 0) + 1
                     if accepted:
                         fail("accepted_nonfinite", dict(where, fresh=f_prop), cls)
-                elif H_ref is not None and math.isfinite(f_cur):
-                    la = (f_prop - f_cur) + H_ref
+                elif (H_ref is not None or (unguarded and math.isfinite(H_impl))) and math.isfinite(f_cur):
+                    la = (f_prop - f_cur) + (H_ref if H_ref is not None else H_impl)
                     if len(us) != 1:
                         fail("acceptance_draws", dict(where, draws=len(us)), cls)
                     else:
@@ -1028,9 +1042,9 @@ def _body(c, tmp):
                         if la < 0 and margin < 1e-7:
                             labels["decision_tie"] = labels.get("decision_tie", 0) + 1
                         elif accepted != (u < alpha):
-                            fail("decision", dict(where, u=u, alpha=alpha, accepted=accepted, delta=f_prop - f_cur, hastings=H_ref), cls)
-                        if "acc_prob" in r and not abs(r["acc_prob"] - alpha) <= 1e-7 * max(1.0, scale_of(la)):
-                            fail("acceptance_probability", dict(where, passed_to_tune=r["acc_prob"], reference=alpha, delta=f_prop - f_cur, hastings=H_ref), cls)
+                            fail("decision", dict(where, u=u, alpha=alpha, accepted=accepted, delta=f_prop - f_cur, hastings=H_ref if H_ref is not None else H_impl), cls)
+                        if "acc_prob" in r and not abs(r["acc_prob"] - alpha) <= 1e-7:
+                            fail("acceptance_probability", dict(where, passed_to_tune=r["acc_prob"], reference=alpha, delta=f_prop - f_cur, hastings=H_ref if H_ref is not None else H_impl), cls)
         # ---- (d) state after the decision
         after = r["after"]
         nchecked["d"] += 1
@@ -1113,10 +1127,6 @@ def _body(c, tmp):
     res.key = (c["target"], rnd(jkey(c)), [(o["type"], o["params"], rnd(o["weight"]), rnd(o["tuning"]), o["adapt"]) for o in c["ops"]], c["iterations"], c["torch_seed"])
     res.labels = labels
     return res
-
-
-def scale_of(la):
-    return 1.0
 
 
 def jkey(c):
